@@ -17,11 +17,14 @@ RULE = ("one case = a history of create / hand-made recording / fill / save / re
         "at the end of the history (after the later saves of other ids); streams: main, reserved-key probe (F07b), "
         "shared-sub-object probe (F07c), file-path collision (hand-made ids, observation); non-trivial = at least one "
         "successful save of a non-empty recording that is fetched afterwards; distinct = distinct case")
-ASSUMPTIONS = ["json.loads(json.dumps(j)) == j on the serializer's ASTs (premise of the theorems; evaluated on every saved "
-               "value of every case with the concrete parser Values/JsonParse.v)",
+ASSUMPTIONS = ["json.loads(json.dumps(j)) == j on the well-formed JSON trees jwf that the serializer produces (premise of the "
+               "oracle-parametric theorems, restricted to jwf because no function satisfies it on all json terms; a THEOREM "
+               "for the concrete parser Values/JsonParse.v, so the *_concrete theorems carry no oracle premise; also "
+               "re-evaluated on every saved value of every case, together with the leaf-domain premise rec_leaves_ok)",
                "zlib.decompress(zlib.compress(b)) == b (zlib is the identity in the model run)",
                "quopri round trip for bytes values (simple byte strings in the model run, all byte strings on the implementation side)",
-               "float repr round trip (floats are carried as their repr text)",
+               "floats are carried as their repr text; every float text the harness sends is checked against the grammar "
+               "Values.JsonWf.float_repr_ok (lib/pyvals.float_repr raises otherwise)",
                "uuid1().hex has no '_' and no '/' (32 hex digits); replaced by a deterministic fake",
                "recording ids are non-empty, contain no NUL and give file names shorter than the OS limit"]
 TRUSTED = ["fake bucket behind the real S3BasicFacade; scratch directory for the file cassette",
@@ -473,7 +476,7 @@ def search_harder(rng, bad_cases):
 
 MANIFEST = dict(
     design_ref='6/C07',
-    text="Coq theorems for the three cassette models (in-memory ordered id->text map, file-based directory with path id = replace('/','_') + '.json', S3 full+metadata objects over the bucket model): for ANY prior store state, after save r and any later saves of other ids, get returns r's id, key set, data and metadata up to canonical dict order, and the metadata-only fetch agrees, for all key texts and all values of the serializer's faithful domain; file paths are injective on created ids (collision of hand-made ids refuted with a witness); a never-saved id answers NoSuchRecording on all three; on S3 the data key '_metadata' is lost (refuted with a witness, known finding F07b). Model tied to /repo on every run by histories of create/save/re-save/get/get_metadata (and client scribbles on handed-out objects) on the real cassettes; direct predicate: fetched == saved, metadata-only fetch agrees, unknown id raises NoSuchRecording. Shared sub-objects are covered by the direct predicate only (pyval is tree shaped); one shape is a known finding (F07c).",
-    note='Trusted: Coq kernel + vm_compute; hand-written models of jsonpickle 0.9.3 (flatten/restore) and of the three cassettes; json.loads o json.dumps = id, zlib and quopri round trips are premises (json one evaluated per case with a concrete parser); fake bucket; scratch directory. Known findings F07b (S3 reserved key) and F07c (py/id numbering after an object state) are reported as KNOWN-FINDING.',
+    text="Coq theorems for the three cassette models (in-memory ordered id->text map, file-based directory with path id = replace('/','_') + '.json', S3 full+metadata objects over the bucket model): for ANY prior store state, after save r and any later saves of other ids, get returns r's id, key set, data and metadata up to canonical dict order, and the metadata-only fetch agrees, for all key texts and all values of the serializer's faithful domain (rec_wf) whose floats carry float.__repr__ texts and whose bytes are byte lists (rec_leaves_ok); file paths are injective on created ids (collision of hand-made ids refuted with a witness); a never-saved id answers NoSuchRecording on all three; on S3 the data key '_metadata' is lost (refuted with a witness, known finding F07b). Model tied to /repo on every run by histories of create/save/re-save/get/get_metadata (and client scribbles on handed-out objects) on the real cassettes; direct predicate: fetched == saved, metadata-only fetch agrees, unknown id raises NoSuchRecording. Shared sub-objects are covered by the direct predicate only (pyval is tree shaped); one shape is a known finding (F07c).",
+    note='Trusted: Coq kernel + vm_compute; hand-written models of jsonpickle 0.9.3 (flatten/restore) and of the three cassettes; json.loads o json.dumps = id on well-formed trees, zlib and quopri round trips are premises of the oracle-parametric theorems and theorems for the concrete parser / simple quoted-printable codec / identity zlib (C07_roundtrip_*_concrete: no oracle premise); fake bucket; scratch directory. Known findings F07b (S3 reserved key) and F07c (py/id numbering after an object state) are reported as KNOWN-FINDING.',
     technique='Coq proof (serializer round trip + store algebra) + history correspondence by vm_compute + direct fetched==saved predicate',
 )
